@@ -161,6 +161,7 @@ def _plain(objs, model):
     return sem.PlainModel(assets, links)
 
 
+@common.job
 def job_inh(job):
     shape, kname, full = job
     kw = dict(KINDS)[kname]
@@ -169,6 +170,9 @@ def job_inh(job):
     lang = sem.Lang(sp)
     stats, viols = {'languages': 1}, []
     models = _models_basic() + (_models_naming() if full else [])
+    if kw.get('kind') != 'defense':
+        # defense values only matter for languages whose step is a defense
+        models = [d for d in models if all(a[3] in (None, 0.5) for a in d['assets'])]
     for desc in models:
         try:
             m, objs = build(fx, desc, 'sx')
@@ -206,6 +210,7 @@ def _partb(kmax, n, l, two):
     return _PB[key]
 
 
+@common.job
 def job_sem(job):
     key, ci, lo, hi = job
     exprs, models = _partb(*key)
